@@ -5,6 +5,12 @@ HERE = os.path.dirname(os.path.dirname(os.path.abspath(__file__)))
 PROPS = [json.loads(l) for l in open(os.path.join(HERE, 'properties.jsonl'))]
 
 CLAIMED = {
+ 'C02': dict(
+   category='proof',
+   text='For every line mapped to a template box whose accessibility text carries a machine-readable instruction (add / add ... through / combine / subtract [floor at zero] / multiply by rate or amount / smaller or larger of / divide / amount from line / carried from Schedule or Form), and for the transcribed Qualified Dividends and Capital Gain Tax Worksheet, the instruction is parsed on every run from the bundled PDF into a term over the other lines of the solution, and z3 proves on every returning path of the real line function that the value equals that term for all inputs (289 lines over three years); callee lines contribute their contracts (exact decimals, non-negativity, and where needed their own definitions unfolded). Carry lines equal the named line of the other form or are blank when that form is not demanded.',
+   design_ref='DESIGN 4 C02',
+   note='A-ORACLE for the transcribed worksheet and the grammar in pyvc/instr.py; lines whose instruction is prose, conditional, or layout-dependent are listed per form as uncovered and not claimed (99 entries); NC forms carry no text and are not covered; A-REAL.',
+   technique='line postconditions against an instruction term parsed from the official template, symbolic execution + z3'),
  'C18': dict(
    category='proof',
    text='Class invariant pdf_wf(form) as ground obligations, exhaustive over all 1 665 mappings of all forms and years (8 695 obligations) against the field tree, accessibility text, export values and limits parsed from the bundled templates on every run: the target exists; where the template labels the box with a line number (IRS speak text incl. compound labels, NC field names) the mapped line is that line; export values and length limits agree; no box is driven twice; the mapped line exists; every form that can require filing has a template and mappings. Exclusive box groups: the real ButtonPDFField.value with the real value functions is evaluated on the whole value domain of the driving line - at most one box on, distinct export values, and the box that is on for a member is labelled with that member. PDFFiller._fill_form executed symbolically: each box receives the text of its own line, blank for an absent optional line, abort on unknown line / absent required line.',
